@@ -42,7 +42,13 @@ BOXES = [None, "HEAVY_HEAD", "CUSTOM", "ASCII", "SQUARE", "MINIMAL", "SIMPLE", "
          "HEAVY_EDGE", "ASCII2"]
 PADDINGS = [(0, 1), (0, 0), (1, 1), (0, 2, 0, 1), (1, 0, 1, 3), (0, 0, 0, 2), (1, 2), (0, 3, 1, 0), 2, (1,)]
 TEXTS = ["a", "bb", "", "ccc dd", "some longer words in a cell", "あい", "あ b いう", "x\ny", "one two\nthree", "ẍy z", "averyveryverylongword",
-         "x  y", "あいうえおかき", "q\n\nr"]
+         "x  y", "あいうえおかき", "q\n\nr",
+         # an over-long double-width word that must be folded, then a short word (len() != cell_len() after the fold)
+         "あいうえおかきくけこ ab", "ｗｉｄｅｗｏｒｄｓ go on", "xあいうえおかきy z", "ab あいうえおかきくけこさし c d"]
+WIDE_WORDS = ["あいうえおかきくけこ ab", "ｗｉｄｅｗｏｒｄｓ go on", "ab あいうえおかきくけこさし c d", "averyveryverylongword ab", "あいう"]
+# the ConsoleOptions the table is rendered WITH (console.print(table, no_wrap=True), a parent's options, ...)
+RENDER_OPTS = [{"no_wrap": True}, {"no_wrap": None}, {"no_wrap": True, "overflow": "crop"}, {"justify": "right"}, {"justify": "center", "overflow": "ellipsis"},
+               {"overflow": "fold", "no_wrap": True, "justify": "full"}, {"highlight": True}, {"highlight": True, "no_wrap": True}]
 
 
 def cell_of(rng, nested=True):
@@ -57,7 +63,9 @@ def cell_of(rng, nested=True):
         return ("panel", rng.choice(TEXTS[:8]))
     if r < 0.93:
         return ("fit", rng.choice(TEXTS[:6]))
-    if r < 0.97:
+    if r < 0.95:
+        return ("ntable", [rng.choice(WIDE_WORDS + TEXTS[:6]) for _ in range(rng.choice([1, 2]))])
+    if r < 0.975:
         return ("table", rng.choice([1, 2]))
     return ("pad", rng.choice(TEXTS[:8]), rng.choice([1, 2]))
 
@@ -230,7 +238,7 @@ def table_jobs(ctx):
     jobs = []
     # ---- A: one factor at a time (and interacting pairs) around plain small tables, every width from the structural
     #         minimum up (the bounded-exhaustive part)
-    contents = [(1, 1), (2, 2), (3, 1), (2, 0)]
+    contents = [(1, 1), (2, 2), (3, 1), (2, 0), (2, 1)]
     factor_values = {
         "box": BOXES if not quick else BOXES[:8],
         "show_header": [False], "show_footer": [True], "show_edge": [False], "show_lines": [True],
@@ -238,8 +246,19 @@ def table_jobs(ctx):
         "padding": PADDINGS[1:], "title": ["T", "A longer title for the table"], "caption": ["caption text"],
         "min_width": [6, 14, 30], "width": [8, 17],
     }
-    for ncols, nrows in contents:
+    for ci_, (ncols, nrows) in enumerate(contents):
         spec = base_spec(rng, ncols, nrows, nested=False, plain_cols=True)
+        if ci_ == 1:
+            # fold columns holding over-long wide words followed by short ones, and a nested folding table in a no_wrap column
+            spec["rows"][0]["cells"] = [("s", WIDE_WORDS[0]), ("t", WIDE_WORDS[2], None)]
+            spec["rows"][1]["cells"] = [("ntable", [WIDE_WORDS[1], "ab cd"]), ("s", WIDE_WORDS[3])]
+            spec["cols"][0]["no_wrap"] = False
+        if ci_ == 4:
+            # nested folding tables inside columns that do NOT fold themselves (no_wrap / crop / ellipsis): the inner column's own
+            # settings must win over the options the outer column hands down
+            spec["cols"][0].update(no_wrap=True, overflow="crop", justify="right")
+            spec["cols"][1].update(no_wrap=False, overflow="ellipsis", justify="center")
+            spec["rows"][0]["cells"] = [("ntable", [WIDE_WORDS[0], "ab cd"]), ("ntable", [WIDE_WORDS[3]])]
         variants = [{}]
         for k, vals in factor_values.items():
             variants += [{k: v} for v in vals]
@@ -250,8 +269,12 @@ def table_jobs(ctx):
                      {"box": "CUSTOM", "show_footer": True, "show_lines": True}, {"box": "CUSTOM", "show_footer": True, "leading": 1},
                      {"box": "CUSTOM", "show_header": False, "show_edge": False, "show_lines": True}]
         specs = []
-        for ov in variants:
+        for ov in variants + [{"_ro": ro} for ro in RENDER_OPTS] + [{"_ro": ro, "title": "A longer title for the table", "box": None} for ro in RENDER_OPTS[:3]]:
+            ov = dict(ov)
+            ro = ov.pop("_ro", None)
             s = dict(spec, opts=dict(ov))
+            if ro is not None:
+                s["render_opts"] = ro
             smin = structural_min(s)
             nat = natural_width(s)
             top = min(max(nat + 3, smin + 4), 36)
@@ -325,6 +348,8 @@ def table_jobs(ctx):
             column_options(rng, spec, level=rng.random() < 0.5)
             s = {"cols": [dict(c) for c in spec["cols"]], "rows": spec["rows"], "opts": o, "via_column_objects": spec["via_column_objects"],
                  "has_extra": spec.get("has_extra", False)}
+            if rng.random() < 0.35:
+                s["render_opts"] = dict(rng.choice(RENDER_OPTS))
             if rng.random() < 0.2:
                 o["min_width"] = rng.choice([0, 5, 12, 25, 50])
             if rng.random() < 0.15:
@@ -417,7 +442,9 @@ MANIFEST = {
     "old_expand_ratio_fails (ratio column beside a zero-width column).  "
     "Tie: the model's column widths and rendered lines equal `_calculate_column_widths` / `Console.render(table)` character for "
     "character on ~2.6k (quick) / ~50k (thorough) generated tables (1..6 columns, 0..8 rows, all table and column options, nested "
-    "Panel/Table/Padding cells, wide and zero-width characters, ragged and add_row-created columns) with each real cell's oracle "
+    "Panel/Table/Padding cells, wide and zero-width characters, ragged and add_row-created columns, nested folding tables, over-long wide words; rendered WITH varying incoming ConsoleOptions "
+    "(no_wrap / justify / overflow / highlight), the cell options being derived from the documented rule 'the column's own setting wins', "
+    "title / caption inheriting overflow / no_wrap) with each real cell's oracle "
     "tabulated on real rich for all widths 0..W; `_get_cells` padding rules, `_get_padding_width` and every box row builder compared "
     "exhaustively; the theorems' executable statements evaluated on rich's own output.",
     "note": "PARTIAL: the `_free` corollaries and width_fits are for tables without active ratio columns whose columns carry no "
@@ -426,7 +453,7 @@ MANIFEST = {
     "widths), not by the `_free` corollaries; non-wrappable columns can exceed the available width (ratio_reduce caps: "
     "`ratioReduce 50 [1,1] [100,1] [100,1] = [75,0]`) - outside the statement.  Cells, title and caption are oracles (contract checked per "
     "tabulated entry: rendered lines have exactly the requested width, 0 <= min <= max <= w); that a fold column's cell keeps every "
-    "non-whitespace character is C02's theorem, here only evaluated on real output.  Not modelled: styles/row_styles, Box.substitute "
+    "non-whitespace character is C02's theorem, here only evaluated on real output (the characters found inside the column's span are compared with the cell's SOURCE text).  Not modelled: styles/row_styles, Box.substitute "
     "(legacy_windows / ascii_only consoles).  Table.__rich_measure__ is modelled (`Table.richMeasure`) and compared per table.  "
     "Tables without columns are compared (widths, lines, measure, the AssertionError) but are outside the rectangle statement.  Domain of the direct evaluation: 'no negative column width' everywhere; the rest at available width >= structural "
     "minimum (1 cell per free column, width/min_width + padding otherwise), exactness / positivity with ratio None or >= 1.  Trusted: Lean kernel, axioms "
